@@ -141,7 +141,12 @@ class MystReferenceResolver(ReferencesResolver):
                 MystWarnings.XREF_MISSING,
                 location=node,
             )
-            node.replace_self(node[0].deepcopy())
+            newnode = node[0].deepcopy()
+            if not newnode.children:
+                # no explicit text: never render the link without any text
+                text = ref_docname + (f"#{ref_id}" if ref_id else "")
+                newnode.append(nodes.literal(text, text))
+            node.replace_self(newnode)
             return
 
         targetid = ""
